@@ -880,7 +880,8 @@ fn parse_zone(
             }
         },
         5 => match string.chars().nth(4) {
-            Some(char) if char.is_ascii_digit() => {
+            // Seconds are present if the minutes are followed by a colon and a digit
+            Some(char) if char.is_ascii_digit() && string.chars().nth(3) == Some(':') => {
                 // Using unwrap because it's safe to assume that the string is long enough
                 remove_part(1, string).unwrap();
                 let minute = pick_part::<u32>(2, string, "timezone minute")?;
